@@ -166,8 +166,10 @@ class Truncated(Harness):
 
 
 # ------------------------------------------------------------------------------------------------
-FULL_POOL = ['int', 'float', 'bool', 'blank', 'numtext', 'text', 'date', 'error', 'array', 'nested']
-REDUCED_POOL = ['int', 'text', 'blank', 'error', 'array']
+FULL_POOL = ['int', 'float', 'bool', 'blank', 'numtext', 'text', 'special', 'date', 'error', 'array', 'nested']
+SPECIAL_TEXTS = ['inf', '-inf', 'nan', '1e999', '1e5', '-2.5E-3', '', ' ', '0x10', '1_0', '\uff11\uff12', '1,5', 'TRUE', '#N/A', ',', '2020-02-30', 'a' * 40]
+SPECIAL_FLOATS = [float('inf'), float('-inf'), float('nan'), 1e308, 5e-324, -0.0]
+REDUCED_POOL = ['int', 'text', 'special', 'blank', 'error', 'array']
 # functions whose body formats or parses free text in ways the engine does not model (declared, not silently skipped)
 UNMODELLED_FUNCS = {'TEXT'}
 
@@ -175,7 +177,16 @@ UNMODELLED_FUNCS = {'TEXT'}
 SMALL_INT_FUNCS = {'ROMAN', 'FACTDOUBLE', 'FACT'}   # one path per integer value: the wide range would only enumerate
 
 
-def pool_value(env, e, tag, name, arity=1, fn=None):
+CONCRETE_SAMPLES = {'int': [0, 1, -1, 2, 16, 40], 'float': [0.5, -2.5, 3.0], 'bool': [True, False], 'numtext': ['12', '07'],
+                    'text': ['bc'], 'array': [[1, 2]], 'nested': [[[1, 2], [3, 4]]]}
+
+
+def pool_value(env, e, tag, name, arity=1, fn=None, concrete=False):
+    if concrete and tag in CONCRETE_SAMPLES:
+        # partner of a 'special' value: non-finite doubles do not mix with symbolic arithmetic, so the partner is drawn from
+        # a few concrete representatives (an enumeration, stated in the bounds)
+        vals = CONCRETE_SAMPLES[tag]
+        return vals[e.choose(len(vals))]
     if tag == 'int' and fn in SMALL_INT_FUNCS:
         return e.fresh_int(name, -40, 40)
     if tag == 'float' and fn in SMALL_INT_FUNCS:
@@ -199,6 +210,10 @@ def pool_value(env, e, tag, name, arity=1, fn=None):
         return e.fresh_bool(name)
     if tag == 'blank':
         return None
+    if tag == 'special':
+        # concrete odd values: texts float()/int() give a special meaning to, non-finite and extreme doubles
+        k = e.choose(len(SPECIAL_TEXTS) + len(SPECIAL_FLOATS))
+        return SPECIAL_TEXTS[k] if k < len(SPECIAL_TEXTS) else SPECIAL_FLOATS[k - len(SPECIAL_TEXTS)]
     if tag == 'numtext':
         return numtext(e, name, 2)[0]
     if tag == 'text':
@@ -222,13 +237,13 @@ class Functions(Harness):
     doc = 'every registered function at every arity 0..2 (quick) / 0..4 (thorough) over a pool holding a value of every type ' \
           'returns a well-formed record and terminates'
     functions = ('every function in formulas.dispatcher._registry_', 'Parser.parse', 'Parser.call_function', 'error.from_message')
-    bounds = 'arguments: int (|n| <= 2^16 alone, |n| <= 40 beside other arguments), float (integer-valued |x| <= 2^16, 0.5, -2.5), logical, blank, numeric text (2 digits), text (2 letters), date, any of 8 errors, ' \
+    bounds = 'arguments: special (with concrete partners; 17 concrete odd texts such as inf, nan, 1e999, fullwidth digits and 6 non-finite / extreme doubles), int (|n| <= 2^16 alone, |n| <= 40 beside other arguments), float (integer-valued |x| <= 2^16, 0.5, -2.5), logical, blank, numeric text (2 digits), text (2 letters), date, any of 8 errors, ' \
              'flat array of 2, nested 2x2; quick: arity 0-1 full pool, arity 2 reduced pool {int, text, blank, error, array}; ' \
              'thorough: arity 0-2 full pool, arity 3-4 reduced pool; termination = iteration budget of the engine, confirmed by ' \
              'replay under a line-event budget'
     outside = ('the cost of single C-level big-number operations (9^999999999, FACT(10^6)): the budget counts Python-level steps',
                'TEXT(value, format): number-format mini-language is not modelled (declared unmodelled, bug-hunting replay only)')
-    max_ticks = 600
+    max_ticks = 6000
     step_budget = 400000
     case_timeout_s = {'quick': 120, 'thorough': 600}
 
@@ -257,6 +272,11 @@ class Functions(Harness):
         return out
 
     def _cases_for(self, n, tier):
+        return [c for c in self._cases_for0(n, tier) if not (n in SMALL_INT_FUNCS and 'special' in c['tags'])]
+
+    def _cases_for0(self, n, tier):
+        # (FACT / FACTDOUBLE / ROMAN of the extreme doubles in the special pool are single C-level big-number operations:
+        #  outside the claim, see `outside`)
         out = []
         if True:
             out.append({'fn': n, 'tags': []})
@@ -282,7 +302,7 @@ class Functions(Harness):
     def run(self, env, inp, p):
         if env.symbolic:
             e = E.cur()
-            inp['args'] = [pool_value(env, e, t, 'x%d' % i, len(p['tags']), p['fn']) for i, t in enumerate(p['tags'])]
+            inp['args'] = [pool_value(env, e, t, 'x%d' % i, len(p['tags']), p['fn'], concrete=('special' in p['tags'])) for i, t in enumerate(p['tags'])]
         names = ['v%s' % 'abcd'[i] for i in range(len(p['tags']))]
         return self.parse_with(env, '%s(%s)' % (p['fn'], ','.join(names)), dict(zip(names, inp['args'])))
 
@@ -321,6 +341,7 @@ class HostFaults(Harness):
         if env.symbolic:
             if p['what'] == 'raise':
                 inp['exc'] = EXCS[e.choose(len(EXCS))]
+                inp['shape'] = e.choose(4)
                 inp['code'] = CODES[e.choose(len(CODES))]
                 inp['val'] = None
             else:
@@ -329,7 +350,7 @@ class HostFaults(Harness):
                     tag = 'int'      # text rendering of floats / dates (repr algorithm) is not modelled
                 inp['tag'] = tag
                 inp['val'] = pool_value(env, e, tag, 'r')
-            inp['a'] = e.fresh_int('a', -100, 100)
+            inp['a'] = 3 if inp.get('tag') == 'special' else e.fresh_int('a', -100, 100)
         err = env.error
 
         def behave(*args):
@@ -341,7 +362,15 @@ class HostFaults(Harness):
             if x == 'XLErrorOdd':
                 raise err.XLError('#FOO')
             import builtins
-            raise getattr(builtins, x)('host fault')
+            cls = getattr(builtins, x)
+            shape = inp.get('shape', 0)
+            if shape == 1:
+                raise cls()                       # no arguments at all
+            if shape == 2:
+                raise cls(['A1', 'B2'])           # unhashable first argument
+            if shape == 3:
+                raise cls(7, 'x')                 # non-text arguments
+            raise cls('host fault')
         P = env.Parser()
         P.set_variable('va', inp['a'])
         if p['kind'] == 'func':
@@ -354,6 +383,51 @@ class HostFaults(Harness):
             else:
                 P.on(ev, lambda *a: behave())
         return P.parse(SKELETONS[p['sk']])
+
+    def post(self, env, inp, out, p):
+        return well_formed(env, out)
+
+
+LONG_TEMPLATES = [
+    ('unterminated string', 'CONCATENATE("', 'X', ', 1)'),
+    ('unterminated single-quoted string', "LEN('", 'X', ')'),
+    ('long identifier', '', 'L', '+1'),
+    ('long function name', '', 'L', '(1)'),
+    ('long string literal', '"', 'X', '"&"a"'),
+    ('long digit run', '1', 'D', '+1'),
+    ('nested parentheses', '((((((((((((((((((((', 'D', '))))))))))))))))))))'),
+    ('operator run', '1', 'O', '1'),
+]
+
+
+@register
+class LongTexts(Harness):
+    name = 'C01.longtexts'
+    prop = 'C01'
+    needs_ply = True
+    termination = True
+    doc = 'parse returns in bounded time on long inputs of the shapes that stress the lexer: unterminated and long string ' \
+          'literals, long identifiers and digit runs, deep parentheses, operator runs (the run itself is symbolic text)'
+    functions = ('grammarparser.lexer.t_STRING', 'grammarparser.lexer.t_FUNCTION', 'grammarparser.lexer.t_VARIABLE', 'ply.lex.Lexer.token',
+                 're (backtracking of the master regex, mirrored by the symbolic matcher)')
+    bounds = '%d templates with a symbolic run of 24 (quick) / 40 (thorough) characters from the template\'s class (letters and ' \
+             'spaces, digits, or operator characters); termination = decision / iteration budget of the symbolic matcher, ' \
+             'confirmed by replay under a wall-clock limit (the real regex engine runs in C)' % len(LONG_TEMPLATES)
+    max_decisions = 3000
+    max_ticks = 5000
+    case_timeout_s = {'quick': 60, 'thorough': 200}
+
+    def cases(self, tier):
+        return [{'t': i, 'n': 24 if tier == 'quick' else 40} for i in range(len(LONG_TEMPLATES))]
+
+    def build(self, e, p):
+        kind = LONG_TEMPLATES[p['t']][2]
+        alpha = {'X': [(65, 90), (97, 122), (32, 32)], 'L': [(65, 90), (97, 122)], 'D': [(48, 57)], 'O': [(42, 43), (45, 45), (47, 47)]}[kind]
+        return {'run': e.fresh_str('r', p['n'], alphabet=alpha)}
+
+    def run(self, env, inp, p):
+        _, pre, _, post_ = LONG_TEMPLATES[p['t']]
+        return env.Parser().parse(pre + inp['run'] + post_)
 
     def post(self, env, inp, out, p):
         return well_formed(env, out)
